@@ -93,6 +93,7 @@ static void judge(const std::string& key, const std::string& replay, bool valid,
     Res r = attempt(build);
     Fnv h; h.str(key);
     L.distinct.insert(h.h);
+    L.sample("{\"call\": " + jstr(key) + ", \"documented_valid\": " + (valid ? "true" : "false") + ", \"outcome\": " + jstr(r.o == ACCEPTED ? "accepted" : r.o == INVALID_ARGUMENT ? "invalid_argument" : r.what) + "}", 4);
     if (valid)
     {
         L.count("valid_cases");
